@@ -193,6 +193,29 @@ def run_sequence(ds, items, ops, sig="C08"):
     applied, interesting, labels = 0, False, []
     for op in ops:
         f = op["f"]
+        if f.startswith("inplace-"):
+            # the caller edits the dataset it holds (its maze list is a plain list) and brings the config up to date, as the library's
+            # own filters do; later filters must see the dataset as it is now
+            if f == "inplace-reverse":
+                ds.mazes.reverse()
+                items = items[::-1]
+            elif f == "inplace-extend" and ds.mazes:
+                k = op["params"].get("k", 1) % len(ds.mazes) + 1
+                from maze_dataset.maze.lattice_maze import SolvedMaze
+
+                # (distinct objects with the same content: metadata collection clears the metadata of each object it has counted)
+                ds.mazes.extend(SolvedMaze(connection_list=np.array(m.connection_list), solution=np.array(m.solution),
+                                           generation_meta=None if m.generation_meta is None else dict(m.generation_meta)) for m in ds.mazes[:k])
+                items = items + items[:k]
+            elif f == "inplace-drop" and len(ds.mazes) >= 2:
+                ds.mazes.pop()
+                items = items[:-1]
+            elif f == "inplace-assign":
+                ds.mazes = list(ds.mazes[1:]) + list(ds.mazes[:1])
+                items = items[1:] + items[:1]
+            call(f"{sig}:update_self_config", ds.update_self_config)
+            labels.append(f)
+            continue
         # applicability of metadata collection is read off the dataset at hand (several filters do not carry collected metadata over)
         has_meta = len(ds) > 0 and all(m.generation_meta is not None for m in ds.mazes)
         collected = ds.generation_metadata_collected is not None
@@ -400,7 +423,14 @@ def _case(draw, n_hi, max_ops):
     n = draw(st.sampled_from(list(range(2, n_hi + 1))))
     items = draw(hand_items(n))
     ops = draw(st.lists(_op(n, len(items)), min_size=1, max_size=max_ops))
-    return {"n": n, "items": items, "meta": draw(st.sampled_from(["per-maze", "per-maze", "none"])), "ops": ops}
+    out = []
+    for op in ops:
+        out.append(op)
+        if draw(st.integers(0, 4)) == 0:
+            out.append(dict(op))  # the same filter with the same arguments, twice in a row
+        if draw(st.integers(0, 5)) == 0:
+            out.append({"f": draw(st.sampled_from(["inplace-reverse", "inplace-extend", "inplace-drop", "inplace-assign"])), "params": {"k": draw(st.integers(0, 3))}})
+    return {"n": n, "items": items, "meta": draw(st.sampled_from(["per-maze", "per-maze", "none"])), "ops": out}
 
 
 @st.composite
